@@ -3,16 +3,22 @@
 package history
 
 import (
+	"io"
+	"math/big"
+
+	"github.com/cockroachdb/pebble"
 	"github.com/ethereum/go-ethereum/core/types"
 	"github.com/holiman/uint256"
 	"github.com/protolambda/zrnt/eth2/beacon/capella"
 	"github.com/zen-eth/shisui/storage"
+	historytypes "github.com/zen-eth/shisui/types/history"
 	"github.com/zen-eth/shisui/validation"
 )
 
 func init() {
 	vsRegister("C01.history_storage_key", vhC01HistoryStorageKey)
 	vsRegister("C01.history_validate_key", vhC01HistoryValidateKey)
+	vsRegister("C01.history_ephemeral_get", vhC01HistoryEphemeralGet)
 }
 
 // vmStore: a content store with arbitrary answers.
@@ -68,16 +74,35 @@ var vhErrOracle = ErrInvalidBlockHash
 
 var _ validation.Oracle = (*vmOracle)(nil)
 
+// vmDecodeBlockHeader / vmDecodeHeaderWithProof: the RLP header decoder fails or yields a header as
+// go-ethereum's decoder does: Number and Difficulty are never nil after a successful decode.
+func vmDecodeBlockHeader(b []byte) (*types.Header, error) {
+	if vsChoose("header-decodes", 2) == 0 {
+		return nil, vhErrOracle
+	}
+	return &types.Header{Number: new(big.Int).SetUint64(vsU64("header-number")), Difficulty: new(big.Int)}, nil
+}
+
+func vmDecodeHeaderWithProof(content []byte) (*historytypes.HeaderWithProof, error) {
+	h, err := vmDecodeBlockHeader(content)
+	if err != nil {
+		return nil, err
+	}
+	return &historytypes.HeaderWithProof{Header: h, Proof: vsBytes("proof", 4)}, nil
+}
+
 // Validator dispatch on a peer-chosen key (0..L bytes) and content; the decoders and the body /
 // receipt validators behind the dispatch are arbitrary-outcome stubs.
 //
 //verif:harness C01.history_validate_key unwind=20
-//verif:stub havoc github.com/zen-eth/shisui/types/history.DecodeBlockHeaderWithProof github.com/zen-eth/shisui/types/history.DecodeBlockHeader github.com/zen-eth/shisui/types/history.DecodeHeaderWithProof
+//verif:stub havoc github.com/zen-eth/shisui/types/history.DecodeBlockHeaderWithProof
+//verif:model github.com/zen-eth/shisui/types/history.DecodeBlockHeader = vmDecodeBlockHeader
+//verif:model github.com/zen-eth/shisui/types/history.DecodeHeaderWithProof = vmDecodeHeaderWithProof
 //verif:stub havoc github.com/zen-eth/shisui/history.ValidateBlockBodyBytes github.com/zen-eth/shisui/history.ValidatePortalReceiptsBytes
 //verif:stub havoc (github.com/zen-eth/shisui/validation.HeaderValidator).ValidateHeaderAndProof
 //verif:stub attr (*github.com/ethereum/go-ethereum/core/types.Header).Hash
 //verif:exec github.com/protolambda/ztyp/codec github.com/protolambda/ztyp/view
-//verif:param L=4/40
+//verif:param L=12/40
 func vhC01HistoryValidateKey() {
 	key := vsBytes("key", vsParam("L"))
 	content := vsBytes("content", 4)
@@ -88,5 +113,55 @@ func vhC01HistoryValidateKey() {
 	}
 	if len(key) == 0 {
 		vsCover("empty-key")
+	}
+}
+
+type vmEphCloser struct{}
+
+func (vmEphCloser) Close() error {
+	if vsChoose("close-fails", 2) == 1 {
+		return pebble.ErrClosed
+	}
+	return nil
+}
+
+// vmEphDBGet: missing, failing, or any value of 0..12 bytes; the closer may be absent.
+func vmEphDBGet(db *pebble.DB, key []byte) ([]byte, io.Closer, error) {
+	switch vsChoose("db-get", 3) {
+	case 0:
+		return nil, nil, pebble.ErrNotFound
+	case 1:
+		return nil, nil, pebble.ErrClosed
+	}
+	var c io.Closer
+	if vsChoose("closer-present", 2) == 1 {
+		c = vmEphCloser{}
+	}
+	return vsBytes("db-value", 12), c, nil
+}
+
+// The ephemeral-header store behind the adapter, with the database answering arbitrarily: a
+// peer-chosen find-content key (0..L bytes after the type byte) and database contents of any shape
+// (missing entries, values of any length 0..12, iterator positions with keys of any length) never
+// panic (requested ancestor counts 0..2 / 0..3: every walk step runs the same code).
+//
+//verif:harness C01.history_ephemeral_get unwind=300 havocmax=12
+//verif:model (*github.com/cockroachdb/pebble.DB).Get = vmEphDBGet
+//verif:stub havoc (*github.com/cockroachdb/pebble.DB).NewIter
+//verif:stub havoc (*github.com/cockroachdb/pebble.Iterator).SeekGE (*github.com/cockroachdb/pebble.Iterator).Prev (*github.com/cockroachdb/pebble.Iterator).Key (*github.com/cockroachdb/pebble.Iterator).Value (*github.com/cockroachdb/pebble.Iterator).Error (*github.com/cockroachdb/pebble.Iterator).Valid (*github.com/cockroachdb/pebble.Iterator).Close
+//verif:param L=34/40 ANC=2/3
+func vhC01HistoryEphemeralGet() {
+	rest := vsBytes("key", vsParam("L"))
+	if len(rest) >= 33 {
+		vsAssume(int(rest[32]) <= vsParam("ANC")) // requested ancestor count (each walk step is alike)
+	}
+	key := append([]byte{byte(historytypes.OfferEphemeralType)}, rest...)
+	hs := &Storage{eternalStorage: &vmStore{}, ephemeralStorage: &EphemeralStorage{db: new(pebble.DB)}}
+	out, err := hs.Get(key, vsBytesN("id", 32))
+	if err == nil {
+		_ = out
+		vsCover("payload-returned")
+	} else {
+		vsCover("rejected")
 	}
 }
